@@ -232,7 +232,7 @@ pub fn run(ctx: &mut Ctx) {
         let reps = ctx.tier.pick(1, 6);
         for (t, len, part) in crate::gen::payload::pairwise_shapes() {
             
-            for base in 0..3u8 {
+            for base in 0..4u8 {
                 crate::gen::payload::pairwise_specials(t, len, part, if base == 0 { reps } else { 1 }, base, &mut mix, |b| {
                     ctx.sweep_case("pairwise-special-values", &crate::adapter::STD, &Input::Payload { bytes: b }, check);
                 });
